@@ -156,4 +156,4 @@ func vc07NaN(maxN int) {
 	vReach("end")
 }
 
-func VC07_NaN_Quick()    { vc07NaN(2) }
+func VC07_NaN_Quick() { vc07NaN(2) }
